@@ -328,7 +328,9 @@ LEVEL_TEXT = ("Lean 4 theorems over exact rationals about the per-day aggregatio
 LEVEL_NOTE = ("Hand model; meter-day starts (the meter index the class built) and local midnights are inputs of the model; merge_asof / groupby / "
               "resample semantics are validated by T2 only. The return value of _compute_temperature_features is captured by wrapping the method "
               "inside the harness process (no change to /repo).")
-TECHNIQUE = "Lean 4 proof (list induction over readings and meter-day starts, exact rationals) + differential correspondence with the data classes"
+TECHNIQUE = ("Lean 4 proof (list induction over readings and meter-day starts, exact rationals; the blanking masks of both "
+             "_compute_temperature_features translated from the source on every run are proved equal to the model's rule) + differential "
+             "correspondence with the data classes")
 ASSUMPTIONS = ["feed offsets are whole sampling intervals, as the property states",
                "an all-missing day is blanked as a whole row by the class (counts become NaN there); counts are compared on days with at least one present reading",
                "temperatures are quarter-degree rationals so float means are exact to 1e-9"]
